@@ -3,6 +3,7 @@
   Runs the executable definitions of the model (the same definitions the theorems are about).
 -/
 import Lessm.Model.Color
+import Lessm.Model.Sign
 import Lessm.Model.Builtins
 import Lessm.Model.Guard
 import Lessm.Model.ExprGen
@@ -680,6 +681,10 @@ def handle (op : String) (payload : String) : String :=
   | "c15.rec", ws => lrRecognise ws
   | "c12.filter", ws => String.intercalate " " (Lex.filter Gen.significantWs ws)
   | "c09.fn", ws => colorFn ws
+  | "c04.signs", ws =>
+      -- tokens of a resolved value; `<S>` is the sign of a negated variable (utility.Sign)
+      String.intercalate " " ((Sign.foldSigns (ws.map (fun w => if w == "<S>" then Sign.Tok.sign else Sign.Tok.txt w))).map
+        (fun t => match t with | .sign => "<S>" | .txt w => w))
   | "c04.eval", ws =>
       match Expr.evalText ws with
       | some (.ok v u) => Num.ratStr v ++ " " ++ u
